@@ -214,7 +214,17 @@ def execute(case):
         return ck.verdict()
 
     if op == "diag_embed":
-        res = lib(lambda: T.diag(x))
+        if xs["seed"] % 2:
+            # the result must take its dtype from the operand, not from torch's global default dtype
+            ck.label("default_dtype:float64")
+            old_default = torch.get_default_dtype()
+            torch.set_default_dtype(torch.float64)
+            try:
+                res = lib(lambda: T.diag(x))
+            finally:
+                torch.set_default_dtype(old_default)
+        else:
+            res = lib(lambda: T.diag(x))
         tot = int(np.prod(xs["N"]))
         ref = torch.diag(xd.reshape(-1)).reshape(xs["N"] + xs["N"])
         ref_abs = torch.diag(xa.reshape(-1)).reshape(xs["N"] + xs["N"])
